@@ -27,6 +27,9 @@ func visited[K comparable, V any](m map[K]V, k K) bool { return true }
 // iterStart(e): value of e in the heap as it was when the current loop iteration began (ghost, loop clauses only).
 func iterStart[T any](x T) T { return x }
 
+// lastBool(callee): boolean result of the most recent call of that callee in the function being verified (ghost).
+func lastBool(callee string) bool { return true }
+
 // recvs(ch): number of receive operations executed on channel ch so far (ghost).
 func recvs[T any](ch chan T) int { return 0 }
 
